@@ -656,6 +656,7 @@ fn cmd_bthreads(args: &[String]) {
     let nshards: usize = arg(args, "--nshards").map(|s| s.parse().unwrap()).unwrap_or(1);
     let out = arg(args, "--out");
     let only = arg(args, "--only");
+    let progress = arg(args, "--progress");
     let t0 = std::time::Instant::now();
     let scns = bthreads::scenarios(thorough);
     let mut runs = 0u64;
@@ -678,6 +679,10 @@ fn cmd_bthreads(args: &[String]) {
             k += 1;
             if k % nshards != shard {
                 continue;
+            }
+            if let Some(pf) = &progress {
+                // (if the process dies in the middle of an order, this is what it was doing)
+                let _ = std::fs::write(pf, serde_json::to_string(&serde_json::json!({"scenario": scn, "order": order})).unwrap());
             }
             let run = bthreads::run_order(scn, &order);
             runs += 1;
